@@ -129,6 +129,7 @@ impl Restorer {
 
     fn process_step(&mut self, step: &RestoreStep, is_target: bool, restore_dir: &Path) -> GenericResult<bool> {
         let mut ok = true;
+        let mut restored_files = HashSet::new();
         let mut archive = step.backup.read_data(self.storage.provider.read())?;
 
         for entry in archive.entries()? {
@@ -149,6 +150,7 @@ impl Restorer {
                 EntryType::Regular => {
                     if let Some(info) = step.files.get(&file_path) {
                         self.restore_files(&file_path, entry, info, restore_dir, is_target)?;
+                        restored_files.insert(file_path);
                     } else if is_target {
                         if self.pending_extern_files.contains(&file_path) || self.restored_extern_files.contains(&file_path) {
                             if entry.size() != 0 {
@@ -180,6 +182,13 @@ impl Restorer {
                         "Got an unsupported archive entry ({:?}): {:?}",
                         entry_type, entry_path)
                 }
+            }
+        }
+
+        for path in step.files.keys() {
+            if !restored_files.contains(path) {
+                error!("The backup archive doesn't contain {:?} file.", path);
+                ok = false;
             }
         }
 
